@@ -5,7 +5,8 @@ Effect analysis over the resolved call graph (no code is executed):
   E2  every callee invoked from crate-local code reachable from keygen / sign / verify /
       lifetime resolves into an allow-listed crate and none resolves to a deny-listed effect
       (RNG, clock, environment, threads, fs/io/net, atomics, cells, address exposure)
-  E4  the in-memory signing key produces its signature only through the byte-level `sign`
+  E4  the in-memory signing key runs the same signing core as the byte-level `sign`, holds no state but the key blob
+      (one byte vector and zero-sized markers), and its update closure stores the complete successor key
   E5  (fast_verify builds) the RNG / thread effects are reachable only with a mutable message:
       constant propagation of `message_mut = None` from `sign` shows them dead for `sign`.
 In safe Rust without statics, interior mutability and without calls that observe the
